@@ -272,7 +272,7 @@ Theorem C03_json_doc_offsets_are_utf16 :
                 exists vn sf, slot f "sofa" = VSofa vn /\ find_sofa c2 vn = Some sf /\
                   forall x z, x = "begin" \/ x = "end" -> slot f x = VInt z ->
                     off_in_text (s_text sf) z /\ alookup x m = Some (JInt (utf16_off (s_text sf) z))))
-            (sort_ids (w_all w)) fss.
+            (found_list c2 w) fss.
 Proof. exact json_doc_offsets_are_utf16. Qed.
 Print Assumptions C03_json_doc_offsets_are_utf16.
 
